@@ -35,9 +35,13 @@ def rule_bits(ctx: Ctx) -> None:
         inv |= 1 << b
     ctx.ob("C04.BITS", CONST, nodes.get("PANDORA_MSK_PIXEL_INVALID"), f"PANDORA_MSK_PIXEL_INVALID = {consts.get('PANDORA_MSK_PIXEL_INVALID')!r}", consts.get("PANDORA_MSK_PIXEL_INVALID") == inv, expected=f"{inv} = bits {spec['invalid']}", detail="the set of 'invalid' criteria differs from the documented one: consumers skip / keep the wrong pixels")
     known = set(spec["bits"]) | {"PANDORA_MSK_PIXEL_INVALID"}
+    allbits = 0
+    for b in spec["bits"].values():
+        allbits |= 1 << b
     for name, val in consts.items():
         if name not in known:
-            ctx.ob("C04.BITS", CONST, nodes.get(name), f"{name} = {val}", False, detail="undocumented flag constant", expected="only the 12 documented bits and PANDORA_MSK_PIXEL_INVALID")
+            # a helper combining documented bits is harmless; a new bit is not
+            ctx.ob("C04.BITS", CONST, nodes.get(name), f"{name} = {val}", val & ~allbits == 0, detail="flag constant with an undocumented bit", expected="only combinations of the 12 documented bits")
     vals = [consts.get(n) for n in spec["bits"]]
     ctx.ob("C04.BITS", CONST, None, f"{len(set(vals))} distinct single bits, all < 4096", len(set(vals)) == 12 and all(v is not None and v < 4096 and v & (v - 1) == 0 for v in vals), function="<module>", detail="two criteria share a bit, or a bit >= 4096 exists")
     ctx.floor("C04.BITS", len(consts), 13)
